@@ -84,6 +84,13 @@ def run_property(prop, tier, repo="/repo", quiet=False):
                         continue
                     r2 = engine.Inst(r.rule, r.key.split(":", 1)[1] + "@release", r.ok, r.site, r.fact, r.oracle, r.detail, r.kind)
                     insts.append(r2)
+    if tier == "thorough":
+        try:
+            import mutate
+            cur = {i.key for i in insts if not i.ok}
+            insts += mutate.live_selftest(prop, cur)
+        except Exception as e:  # noqa
+            insts.append(engine.Inst("SELFTEST-LIVE", "crashed", False, fact="live self-test crashed: %r" % (e,), kind="machinery error"))
     # fixtures: positive examples must fire (machinery self-check)
     try:
         import fixtures_check
